@@ -561,11 +561,18 @@ class Interp:
             return StubModule(full, self.stubs)
         return Opaque(full)
 
-    def resolve(self, key):
-        """'acryo._utils:make_slice_and_pad' or 'acryo.mod:Class.method' -> RepoFunc/RepoClass"""
+    def resolve(self, key, raw=False):
+        """'acryo._utils:make_slice_and_pad' or 'acryo.mod:Class.method' -> RepoFunc/RepoClass.
+        raw=True: the function as written, without applying its (non-ignored) decorators."""
         mod, qn = key.split(":")
         m = self.module(mod)
         parts = qn.split(".")
+        if raw and len(parts) == 1:
+            for st in m.tree.body:
+                if isinstance(st, ast.FunctionDef) and st.name == parts[0] and \
+                        any(_dec_name(d) not in IGNORED_DECORATORS and _dec_name(d) != "overload"
+                            for d in st.decorator_list):
+                    return RepoFunc(m, st, st.name, None)
         try:
             v = m.get(parts[0])
         except KeyError:
